@@ -261,7 +261,7 @@ impl<
                             .and_then(|t| {
                                 #[cfg(transparencies_stretto_verif)]
                                 crate::verif::yield_point("cleanup.after_check");
-                                if t.is_expired() {
+                                if !t.is_zero() && t.is_expired() {
                                     let cost = policy.cost(k);
                                     policy.remove(k);
                                     #[cfg(transparencies_stretto_verif)]
@@ -304,7 +304,7 @@ impl<
                 if let Some(t) = expiration {
                     #[cfg(transparencies_stretto_verif)]
                     crate::verif::yield_point("cleanup.after_check");
-                    if t.is_expired() {
+                    if !t.is_zero() && t.is_expired() {
                         let cost = policy.cost(k);
                         policy.remove(k);
                         #[cfg(transparencies_stretto_verif)]
